@@ -3,6 +3,7 @@ import rules_sched as S
 import rules_dep as D
 import rules_ctx as K
 import rules_db as B
+import rules_commit as M
 
 TB = ['rustc (nightly) MIR construction and type checking of the current /repo tree', 'Rust/C11 memory model and std/parking_lot/dashmap semantics',
       'the hand argument of DESIGN.md section 2 linking the structural obligations to the behaviour']
@@ -11,6 +12,14 @@ AS = ['user-supplied databases and precompiles do not call back into the schedul
 NOT_APPLICABLE = {}
 
 PROPS = {
+    'C03': dict(claim="Decides the structural mechanism that makes skips follow in-order validation: workers run with the nonce check disabled while the committer and the sequential path use the configured flag (S1), the commit-time nonce table (S2: disabled/DB error/MAX-MAX/Greater/Less/Equal/absent account), NeedsSequentialFallback ⇒ abort(FallbackSequential) without publishing (S3), the error-arm table of execute_task (S4: park behind blocker or own commit boundary, abort only at the commit head, Transaction ⇒ fallback), the sequential suffix table (S5: Ok/Skipped(same error)/fatal, commit only on Ok), nonce-overflow classification (S6), post_execute mapping (E2) and the dependency-table obligations that re-offer a parked transaction (V1/V2). That a transaction is skipped iff revm rejects it against the in-order state for all blocks is NOT claimed.",
+                level='other', rules=[M.S1_nonce_flags, M.S2_N11_commit, S.N10_commit_loop, M.S4_E1_error_arm, M.S5_sequential_suffix, M.S6_nonce_overflow, M.E2_post_execute, D.V1_tables, D.V2_claimable_implies_rewind], skip_rules=['E1'],
+                explanation='decision tables of the commit-time nonce check, error parking, sequential replay and abort mapping, decided on every MIR path; the iff with revm validation against in-order state is not claimed',
+                trusted_base=TB, assumptions=AS),
+    'C04': dict(claim="Decides: no fatal verdict from unvalidated speculation (E1: the commit-head test that justifies abort(FatalEvmError) must be evaluated before the attempt), post_execute mapping (E2), first-abort-reason-wins and reason-before-cancel (E3), prefix retention on every exit of the commit loop / install / replay (E4, N12), error txid provenance (E5 inside S2/S5/E2), commit() table (S2/N11), error-arm table (S4), the adapter that enforces recorded precompile faults (P3). Equality of the reported error with the in-order error for all fault sequences is NOT claimed.",
+                level='other', rules=[M.S4_E1_error_arm, M.E2_post_execute, K.W_producers, S.N10_commit_loop, S.N12_install, M.S5_sequential_suffix, M.S2_N11_commit],
+                explanation='error-path structure decided on every MIR path: where fatal verdicts may be raised, how abort reasons map to returned errors, and that every exit keeps the committed prefix',
+                trusted_base=TB, assumptions=AS),
     'C01': dict(claim="Decides the structural necessary conditions of the read/validate/rewind mechanism on every MIR path: reads resolve to the latest strictly-preceding writer (R3), every lookup enters the read set with the version of the very entry used (R1/R4), the validation decision table (V1), the three MV-memory mutators and what they write (W1), publication table of writes (D2), storage resolution table (D3), plus the shared scheduler obligations N1-N9, X1-X5 and orderings A1-A5. Equality of outcomes/bundles with in-order revm for all blocks and schedules is NOT claimed.",
                 level='other', rules=[B.R3_latest_preceding_writer, B.R1_R4_reads, B.V1_validate_table, B.W1_mv_mutators, B.D2_publish_writes, B.D3_storage_table,
                                       S.N1_timestamp_before_scan, S.N2_mark_before_rewind, S.N3_publish_before_rewind, S.N6_finality, S.N7_rewind_under_guard,
@@ -36,7 +45,7 @@ PROPS = {
     'C02': dict(claim="Decides, on every MIR path of the anchored functions, the structural necessary conditions of the in-order/exactly-once/final commit mechanism: tick-before-scan (N1), marks-before-rewind (N2), publication-before-rewind (N3), new-location/conflict rewinds (N4/N5), finality decision table incl. carried lower timestamp (N6), rewinds under the issuer's TS guard (N7), status transition relation (N8), incarnation bump (N9), commit-loop take/publish/release order and exits (N10/V3/L3/E4/S3), outcome installation (N12), result storage and re-onboarding (X1-X5), minimum memory orderings A1-A5 and RMW kinds A6. That the committed value equals the in-order value for all blocks and schedules is NOT claimed.",
                 level='other', rules=[S.N1_timestamp_before_scan, S.N2_mark_before_rewind, S.N3_publish_before_rewind, S.N6_finality,
                                       S.N7_rewind_under_guard, S.N8_status_relation, S.N9_incarnation, S.N10_commit_loop, S.N12_install,
-                                      S.X_execute_task_tail, S.X_result_storage, K.A_atomics],
+                                      S.X_execute_task_tail, S.X_result_storage, K.A_atomics, M.S2_N11_commit, M.B4_reward_fold],
                 explanation='structural necessary conditions of the commit/finality mechanism, decided on every MIR path of the anchored functions; the behavioural statement as a whole is not claimed',
                 trusted_base=TB, assumptions=AS),
 }
